@@ -21,6 +21,7 @@ RULE = (
 ASSUMPTIONS = [
     "default network tolerances (the algorithms hard-code them); deadband EVSEs excluded as the property says; round-robin increment 1 A",
     "true remaining demand is read from the harness-held EV objects",
+    "extra blocks: a rampdown estimator without upward probing (bound can be exactly 0 A) with batteries that fill before the request is met; a network with an EVSE without maximum rate; two run() stages with the last-added constraint tightened in between",
     "small scope: 3 stations, <=3 sessions, <=6 periods",
 ]
 CHUNK = 20
@@ -31,7 +32,7 @@ def bounds(tier, seed):
 
 
 def space(tier, seed):
-    return list(A.scenarios(tier, ["N2", "N5", "N7"]))
+    return list(A.scenarios(tier, ["N2", "N5", "N7"])) + list(A.extra_scenarios(tier))
 
 
 def check(scn, tr, out):
